@@ -187,7 +187,7 @@ fn main() {
     report.assume("at most three error-class faults per history, ordered so that the watcher's exponential back-off (0.8 s doubling, jitter < 2x, assumed never reset) stays below 7 s, inside the 10 s bound");
     report.assume("identifier of a target = metadata.name; targets are compared as a set keyed by identifier, order is not judged; metadata keys the object never carried are tolerated");
     report.assume("generated objects always deserialise (status.address and status.state present, ports absent or a list, never null) and their counter / list / label / annotation keys do not collide with each other or with 'state'");
-    report.assume("the watcher configuration is the one passage builds (list + watch with bookmarks, 290 s watch timeout) with page sizes 1, 2, 3, 500 and unlimited; streaming lists (sendInitialEvents) are not exercised");
+    report.assume("the watcher configuration is the one passage builds (list + watch with bookmarks, 290 s watch timeout) with page sizes 1, 2, 3, 500 and unlimited; every fourth history uses streaming lists (sendInitialEvents) instead, with the snapshot lagging 0-3 events behind the head");
     report.assume("membership and fields of a server whose latest object is Ready/Allocated but unconvertible (no ports, unparsable address) are not judged");
     report.assume("harness lateness above a quarter of the bound (side timers on the runtime and on a plain thread) voids a timing verdict: the history is retried once, then reported inconclusive");
 
